@@ -22,8 +22,8 @@ Clauses ==
        declK == [k \in 1..NKr |-> DeclRowK(E[k], V[k], th, kr, g, fder, sel)]
        ones == \A k \in 1..NKr : \A b \in 1..Len(V[k]) : V[k][b] = 1
    IN
-   [ admissible |-> /\ Supported(fder, sel) /\ g.d > 0 /\ g.n >= 2
-                    /\ \A k \in 1..NKr : NoTieK(E[k], th, kr, g, fder)
+   [ admissible |-> /\ Supported(fder, sel) /\ g.d > 0 /\ g.n >= 1 /\ SingleLevelOK(g, th)
+                    /\ \A k \in 1..NKr : NoTieK(E[k], th, kr, g, fder) /\ NoLevelInsideGroupK(E[k], th, kr, g, fder)
                     /\ (kr => \A k \in 1..NKr : KramersPaired(E[k], th)),
      equals_transcription |-> outK = codeK,
      equals_declarative |-> outK = declK,
